@@ -132,6 +132,14 @@ def run(ctx: Ctx):
                 fx.check_params_pure(ctx, "FX-SELF", an, fi, [fi.all_params[0]], rep_s, EXEMPT_ORIGINS)
     rep_p.flush()
     rep_s.flush()
+    ctx.section(
+        fx.check_frozen,
+        ctx,
+        "FX-FROZEN",
+        "ast2logic.typing.Arg",
+        "the same object is held by the translator's environment, by QlassF.args and by callers that were handed the "
+        "argument list: a change through one holder is a change of every holder's description of the function",
+    )
 
     for short, ops in FRESH_RESULTS.items():
         fx.check_fresh_result(ctx, "FX-FRESH", an, ctx.repo.func(short), ops)
